@@ -115,7 +115,35 @@ def rel_holds(rel, a, b):
     return [a == b, a < b, a > b, a <= b, a >= b, a != b][rel]
 
 
+def coq_nexp(e):
+    if e[0] == 'P':
+        return 'NPlain'
+    if e[0] == 'V':
+        return '(NVal %s)' % coq_val(e[1])
+    return '(%s %s)' % ({'A': 'NArg', '-': 'NNeg', '0': 'NZero', '2': 'NTwice'}[e[0]], coq_nexp(e[1]))
+
+
+def encode_single(v):
+    """MBF single bytes of a rational that is exactly representable (24-bit mantissa)."""
+    if v == 0:
+        return [0, 0, 0, 0]
+    a = abs(v)
+    e = 128
+    while a >= 1:
+        a /= 2
+        e += 1
+    while a < Fraction(1, 2):
+        a *= 2
+        e -= 1
+    m = a * M24
+    assert m.denominator == 1 and 0 < e < 256
+    m = int(m)
+    return [m & 255, (m >> 8) & 255, ((m >> 16) & 127) | (128 if v < 0 else 0), e]
+
+
 def coq_op(op):
+    if op[0] == 'n':
+        return 'ONest %s' % coq_nexp(op[1])
     if op[0] == 'x':
         form = {'sub': 'XSub', 'cmp': '(XCmp %d)' % op[2], 'cmpsub': '(XCmpSub %d)' % op[2]}[op[1]]
         return 'OExpr %s [%s]' % (form, '; '.join('None' if d is None else '(Some %s)' % coq_val(d) for d in op[3]))
@@ -231,6 +259,8 @@ class C39(core.Check):
                 if held is not None:
                     held.append(v)
                 res = [0] + list(bytearray(v.to_bytes()))
+            elif op[0] == 'n':
+                res = [0] + list(bytearray(self._nest_direct(impl, r, op[1]).to_bytes()))
             elif op[0] == 'x':
                 # the draws of one expression, left to right, all still pending when the operator is applied
                 d = [r.rnd_([None if a is None else self._value(impl, a)]) for a in op[3]]
@@ -250,6 +280,25 @@ class C39(core.Check):
             res = common.canon_exc(e)
         return res + [r._seed]
 
+    def _nest_direct(self, impl, r, e):
+        """Evaluate a nested-draw expression on the real objects.  As in the expression parser, RND receives
+        its argument as a lazy iterator: the argument expression runs when rnd_ unpacks it."""
+        from pcbasic.basic.values import values as V
+        if e[0] == 'P':
+            return r.rnd_([None])
+        if e[0] == 'V':
+            return r.rnd_(iter([self._value(impl, e[1])]))
+        if e[0] == 'A':
+            def lazy():
+                yield self._nest_direct(impl, r, e[1])
+            return r.rnd_(lazy())
+        inner = self._nest_direct(impl, r, e[1])
+        if e[0] == '-':
+            return V.neg(inner)
+        if e[0] == '0':
+            return V.mul(impl.values.new_integer().from_int(0), inner)
+        return V.mul(inner, impl.values.new_integer().from_int(2))
+
     def _baseline(self, op):
         """The operation performed first thing on a fresh generator (implementation, cached)."""
         cache = self.__dict__.setdefault('_base', {})
@@ -264,16 +313,57 @@ class C39(core.Check):
         r._seed = seed
         return self._apply(impl, r, op)
 
+    def _stepper(self, r):
+        """A function that advances the real generator r by one plain draw.  The reference is the public path
+        rnd_([None]); a private helper `_cycle` (whatever its signature: in-place method or pure function) is
+        used as a fast path only after it agreed with the public path on a spread of seeds."""
+        def public():
+            r.rnd_([None])
+        cyc = getattr(r, '_cycle', None)
+
+        def method():
+            cyc()
+
+        def pure():
+            r._seed = cyc(r._seed)
+        kind = self.__dict__.get('_step_kind')
+        if kind is None:
+            kind = 'public'
+            samples = [0, 1, 2, 255, 256, M24 - 1, r._seed] + [(j * 2654435761) % M24 for j in range(1, 40)]
+            keep = r._seed
+            for name, fn in (('method', method), ('pure', pure)):
+                if not callable(cyc):
+                    break
+                try:
+                    ok = True
+                    for sd in samples:
+                        r._seed = sd
+                        public()
+                        want = r._seed
+                        r._seed = sd
+                        fn()
+                        if r._seed != want:
+                            ok = False
+                            break
+                except Exception:   # noqa  (wrong signature)
+                    ok = False
+                if ok:
+                    kind = name
+                    break
+            r._seed = keep
+            self._step_kind = kind
+        return {'public': public, 'method': method, 'pure': pure}[kind]
+
     def _affine(self):
-        """(A, C, initial seed) observed from the real _cycle / constructor."""
+        """(A, C, initial seed) observed from plain RND draws at seeds 0 and 1 / from the constructor."""
         if '_ac' not in self.__dict__:
             impl, r = self._fresh()
             s0 = r._seed
             r._seed = 0
-            r._cycle()
+            r.rnd_([None])
             c = r._seed
             r._seed = 1
-            r._cycle()
+            r.rnd_([None])
             self._ac = ((r._seed - c) % M24, c, s0)
         return self._ac
 
@@ -297,6 +387,14 @@ class C39(core.Check):
                                   ['z', i(32767)]]},
             {'k': 'sess', 'ops': [['r'], ['ra', i(0)], ['z', i(5)], ['r'], ['c', 'RUN'], ['r'],
                                   ['c', 'CLEAR'], ['ra', ['s', [0, 0, 192, 129]]], ['c', 'NEW'], ['r']]},
+            # seed C39e: RND(RND), RND(0*RND), RND(-RND), RND(FNR(2)), two levels; then the sequence goes on
+            {'k': 'sess', 'ops': [['r'], ['n', ['A', ['P']]], ['r'], ['n', ['A', ['0', ['P']]]], ['ra', ['i', 0]],
+                                  ['n', ['A', ['2', ['P']]]], ['r'], ['n', ['A', ['-', ['P']]]], ['r'],
+                                  ['n', ['A', ['A', ['P']]]], ['n', ['A', ['-', ['A', ['-', ['P']]]]]], ['r'],
+                                  ['c', 'CLEAR'], ['n', ['A', ['2', ['P']]]], ['r']]},
+            {'k': 'hist', 'ops': [['r'], ['n', ['A', ['P']]], ['r'], ['n', ['A', ['0', ['P']]]], ['ra', ['i', 0]],
+                                  ['n', ['A', ['2', ['P']]]], ['r'], ['n', ['A', ['-', ['P']]]], ['r'],
+                                  ['n', ['A', ['A', ['0', ['V', ['s', [0, 0, 192, 130]]]]]]], ['r']]},
             # seed C39d: RND-RND, RND=RND, RND(-3)-RND, RND<(RND-RND): draws combined in one expression
             {'k': 'sess', 'ops': [['x', 'sub', 0, [None, None]], ['x', 'cmp', 0, [None, None]],
                                   ['x', 'sub', 0, [['s', [0, 0, 192, 130]], None]], ['x', 'cmp', 5, [None, None]],
@@ -445,7 +543,30 @@ class C39(core.Check):
         for j in range(len(ops)):
             if rng.random() < 0.12:
                 ops.insert(rng.randrange(len(ops) + 1), self._rand_expr(rng))
+        for j in range(len(ops)):
+            if rng.random() < 0.10:
+                ops.insert(rng.randrange(len(ops) + 1), ['n', self._rand_nest(rng)])
         return ops
+
+    def _rand_nest(self, rng, depth=0):
+        """RND(<expression that draws>), one or two levels."""
+        def inner(d):
+            r = rng.random()
+            if d >= 2 or r < 0.45:
+                base = ['P']
+            elif r < 0.6:
+                base = ['V', self._rand_val(rng, rng.choice([True, False, None]), False)]
+            else:
+                base = ['A', inner(d + 1)]
+            r = rng.random()
+            if r < 0.25:
+                return ['-', base]
+            if r < 0.40:
+                return ['0', base]
+            if r < 0.60:
+                return ['2', base]
+            return base
+        return ['A', inner(1)]
 
     def _rand_expr(self, rng):
         def draw():
@@ -464,7 +585,7 @@ class C39(core.Check):
         rng = self.rng
         thorough = self.tier == 'thorough'
         hist = {'hist': 0, 'sess': 0, 'scale': 0, 'sweep': 0, 'walk': 0, 'rzint': 0,
-                'op_r': 0, 'op_ra': 0, 'op_z': 0, 'op_c': 0, 'op_rv': 0, 'op_zv': 0, 'op_x': 0,
+                'op_r': 0, 'op_ra': 0, 'op_z': 0, 'op_c': 0, 'op_rv': 0, 'op_zv': 0, 'op_x': 0, 'op_n': 0,
                 'arg_i': 0, 'arg_s': 0, 'arg_d': 0, 'arg_$': 0, 'var_i': 0, 'var_s': 0, 'var_d': 0,
                 'cases_with_variables': 0, 'variable_used_again': 0}
         light, heavy = [], []
@@ -478,8 +599,9 @@ class C39(core.Check):
             for j in range(64):
                 heavy.append({'k': 'walk', 's': s, 'n': 1 << 18})
                 r._seed = s
+                step = self._stepper(r)
                 for _ in range(1 << 18):
-                    r._cycle()
+                    step()
                 s = r._seed
             hist['exhaustive_seeds_scaled'] = M24
             hist['orbit_steps_tied'] = M24
@@ -580,7 +702,8 @@ class C39(core.Check):
                 n = case['n'] if k == 'walk' else 4096
                 r._seed = s0
                 first = cnt = 0
-                cyc = r._cycle
+                cyc = self._stepper(r)
+                r._seed = s0
                 for i in range(1, n + 1):
                     cyc()
                     if r._seed == s0:
@@ -660,6 +783,18 @@ class C39(core.Check):
                     raise RuntimeError('evaluate(%s(%s)) -> %r' % (fn, nm, v))
                 return [len(v)] + list(v)
             assign_vars()
+            # a user function that draws: defined by a program line (DEF FN is illegal in direct mode); RUN
+            # resets the generator, which at this point is in its start-up state anyway
+            fn_ok = [False]
+            uses_fn = any(op[0] == 'n' for op in case['ops'])
+
+            def define_fn():
+                if uses_fn:
+                    s.execute('2 DEF FNR(Q)=RND*Q\r')
+                    s.execute('RUN')
+                    fn_ok[0] = True
+                    assign_vars()
+            define_fn()
             for op in case['ops']:
                 if op[0] in ('rv', 'zv'):
                     nm = var_name(op[1], vars_[op[1]], True)
@@ -673,6 +808,31 @@ class C39(core.Check):
                         out += [0]
                     out.append(rnd()._seed)
                     out += observe(op[1])
+                    continue
+                if op[0] == 'n':
+                    slot = [0]
+
+                    def text_of(e):
+                        if e[0] == 'P':
+                            return 'RND'
+                        if e[0] == 'V':
+                            slot[0] += 1
+                            return 'RND(%s)' % arg_text(e[1], 'N%d' % slot[0])
+                        if e[0] == 'A':
+                            return 'RND(%s)' % text_of(e[1])
+                        if e[0] == '-':
+                            return '-%s' % text_of(e[1])
+                        if e[0] == '0':
+                            return '0*%s' % text_of(e[1])
+                        if e[1] == ['P'] and fn_ok[0]:
+                            return 'FNR(2)'             # DEF FNR(Q)=RND*Q : the draw happens inside the user function
+                        return '%s*2' % text_of(e[1])
+                    text = 'MKS$(%s)' % text_of(op[1])
+                    v = s.evaluate(text)
+                    if not isinstance(v, bytes) or len(v) != 4:
+                        raise RuntimeError('evaluate(%s) -> %r' % (text, v))
+                    out += [0] + list(v)
+                    out.append(rnd()._seed)
                     continue
                 if op[0] == 'x':
                     d = ['RND' if a is None else 'RND(%s)' % arg_text(a, str(j)) for j, a in enumerate(op[3])]
@@ -707,6 +867,7 @@ class C39(core.Check):
                         s.execute('1 REM\r')
                     s.execute(op[1])
                     out += [0]
+                    define_fn()             # ... and the user function (its RUN is one more reset)
                     seed_now = rnd()._seed
                     assign_vars()           # CLEAR / RUN / NEW wipe the variables: set the test up again
                     out.append(seed_now)
@@ -753,7 +914,7 @@ class C39(core.Check):
         for op in case['ops']:
             start = i
             if out[i] == 0:
-                nb = 4 if (op[0] in ('r', 'ra', 'rv') or op[:2] == ['x', 'sub']) else 1 if op[0] == 'x' else 0
+                nb = 4 if (op[0] in ('r', 'ra', 'rv', 'n') or op[:2] == ['x', 'sub']) else 1 if op[0] == 'x' else 0
                 err, b, after = None, out[i + 1:i + 1 + nb], out[i + 1 + nb]
                 i += nb + 2
             else:
@@ -797,6 +958,33 @@ class C39(core.Check):
             if err is not None:
                 if after != seed:
                     viol.append(('other', '%s: failed call changed the seed' % tag))
+                seed = after
+                continue
+            if op[0] == 'n':
+                # nested draws, taken in evaluation order: the argument expression first, then the outer call
+                def ev(e, cur):
+                    if e[0] == 'P':
+                        cur = (A * cur + C) % M24
+                        return cur, Fraction(cur, M24)
+                    if e[0] in ('V', 'A'):
+                        if e[0] == 'V':
+                            v, spec = arg_value(e[1]), e[1]
+                        else:
+                            cur, v = ev(e[1], cur)
+                            spec = ['s', encode_single(v)]
+                        if v > 0:
+                            cur = (A * cur + C) % M24
+                        elif v < 0:
+                            cur = self._baseline(['ra', spec])[-1]
+                        return cur, Fraction(cur, M24)
+                    cur, v = ev(e[1], cur)
+                    return cur, (-v if e[0] == '-' else 0 * v if e[0] == '0' else 2 * v)
+                cur, want = ev(op[1], seed)
+                if after != cur or len(b) != 4 or single_value(b) != want:
+                    viol.append(('other', '%s: taking the draws in evaluation order (argument first) the value is %s '
+                                 'and the seed %d; observed %s (= %s) and seed %d'
+                                 % (tag, want, cur, list(b), single_value(b) if len(b) == 4 else '?', after)))
+                last = None
                 seed = after
                 continue
             if op[0] == 'x':
@@ -886,18 +1074,38 @@ class C39(core.Check):
         if '_walk' not in self.__dict__:
             impl, r = self._fresh()
             s0 = r._seed
-            cyc = r._cycle
+            cyc = self._stepper(r)
+            r._seed = s0
             first = 0
             ok_range = True
-            for i in range(1, M24 + 1):
-                cyc()
-                sd = r._seed
-                if sd == s0:
-                    first = i
-                    break
-                if not (0 <= sd < M24):
-                    ok_range = False
-                    break
+            if self._step_kind == 'public':
+                # no usable fast helper: 2^24 public draws would take minutes.  Walk 2^16 public draws against
+                # the affine step observed at 0 and 1, then the whole cycle with that step in plain arithmetic
+                A, C, _ = self._affine()
+                sd = s0
+                for i in range(1, (1 << 16) + 1):
+                    cyc()
+                    sd = (A * sd + C) % M24
+                    if r._seed != sd:
+                        ok_range = False
+                        break
+                sd = s0
+                if ok_range:
+                    for i in range(1, M24 + 1):
+                        sd = (A * sd + C) % M24
+                        if sd == s0:
+                            first = i
+                            break
+            else:
+                for i in range(1, M24 + 1):
+                    cyc()
+                    sd = r._seed
+                    if sd == s0:
+                        first = i
+                        break
+                    if not (0 <= sd < M24):
+                        ok_range = False
+                        break
             self._walk = (s0, first, ok_range)
         return self._walk
 
@@ -929,7 +1137,7 @@ class C39(core.Check):
         if k == 'period':
             s0, first, ok_range = self._full_walk()
             if not ok_range:
-                return 'seed left [0, 2^24) during the walk from %d' % s0
+                return 'seed left [0, 2^24) (or the fixed affine step) during the walk from %d' % s0
             if first != M24:
                 return ('the sequence from seed %d returns after %s steps, not 2^24'
                         % (s0, first or 'more than 2^24'))
@@ -946,6 +1154,20 @@ class C39(core.Check):
                     return 'seed outside [0, 2^24) after RANDOMIZE %d' % (case['lo'] + j)
             return None
         return None
+
+    def shrink_candidates(self, case):
+        """Only shrink towards cases that still violate the property apart from the known finding K1
+        (the framework's shrinker accepts any candidate the oracle complains about)."""
+        for c in super(C39, self).shrink_candidates(case):
+            if c.get('k') in ('hist', 'sess'):
+                try:
+                    o = self.impl(c)
+                    if any(kind == 'other' for kind, _ in self._analyse(c, o)):
+                        yield c
+                except Exception:   # noqa
+                    continue
+            else:
+                yield c
 
     # ------------------------------------------------------------------ known finding K1
     def known_match(self, finding, case, out):
